@@ -31,6 +31,7 @@ func init() {
 			{ID: "R17e", Floor: 1, Doc: "the extractor never removes or replaces an existing path (= R18f)", Run: ruleR18f},
 			{ID: "R17f", Floor: 3, Doc: "a refused path is not handed out and the refusal is what gets tested: every error return of resolvePath carries the empty path, and every caller tests (or returns) the error of resolvePath itself before anything else is assigned to that variable", Run: ruleR17f},
 			{ID: "R17h", Floor: 1, Doc: "the output directory is resolved as the user spelled it: filepath.EvalSymlinks is given the parameter itself, not a lexically cleaned form of it", Run: ruleR17h},
+			{ID: "R17i", Floor: 2, Doc: "the test for standard-output mode (\"-\") in ExtractToDir and extractFile is made on the name the caller passed, never on a path derived from it", Run: ruleR17i},
 		},
 	})
 }
